@@ -149,6 +149,29 @@ TOK_RULES = [
  ("Lattice::add_connid_counts", r"index", "end_char in 1..=len_char and start_node values stored by insert_node are < ends.len()", None),
 ]
 
+# Audit of the corpus -> training-lattice path (C19: tokenizer output can be fed to train).
+# Input assumption, stated in the evidence: the corpus is tokenizer output, so every token has a
+# non-empty surface and the tokens concatenate to the sentence.
+TRAIN_RULES = [
+ ("compatible_unk_index", r"Sub\(arg4,arg3\)", "end_char - start_char with end = start + surface length (caller build_lattice)", None),
+ ("compatible_unk_index", r"index\(arg1\.offsets", "base_id < number of categories (same tables as scan_entries; category ids bounded below 18)", CATE),
+ ("compatible_unk_index", r"Add\(from_u32\(base_id", "category id + 1 <= 18", None),
+ ("compatible_unk_index", r"index\(arg1\.entries,next", "loop over offsets[c]..offsets[c+1] <= entries.len()", None),
+ ("compatible_unk_index", r"unwrap\(try_from\(next", "word_id < entries.len() <= 65536 fits u32", UNKLEN),
+ ("Trainer::build_lattice", r"bounds\(var:usize\)", "input_chars[pos]: pos is the sum of the lengths of the preceding tokens, < sentence length while a non-empty token remains (tokenizer output has no empty surface)", None),
+ ("Trainer::build_lattice", r"Add\(var:usize,count", "positions inside the sentence", None),
+ ("Trainer::build_lattice", r"assert_failed", "assert_eq!(pos, input_len): the sentence text is the concatenation of the token surfaces (Corpus::from_reader builds it that way: CORPUS rule)", None),
+ ("Trainer::build_lattice", r"unwrap\(new\(len_char", "rucrf Lattice::new fails only for length 0; empty sentences are dropped by Corpus::from_reader (CORPUS rule)", None),
+ ("Trainer::build_lattice", r"unwrap\(add_edge", "edges start < end <= sentence length: positive edges from non-empty tokens, negative edges from trie matches / unknown words inside the sentence", None),
+ ("Trainer::build_lattice", r"index::index\(chars", "start_word < input_len (loop bound)", None),
+ ("Trainer::build_lattice", r"Add\(next\(_\)\.word_idx\.word_id,1\)|Option::unwrap\(new\(Add", "label id = word id + 1 (NonZeroU32): word ids are < 2^32 - 1 entries", None),
+ ("Trainer::build_lattice", r"Add\(next\(_\),next\(_\)\.end_char\)", "start + match length <= sentence length", None),
+ ("Trainer::build_lattice", r"bounds\(next\(_\)\)|bounds\(arg1\.#1\)", "lattice.nodes()[pos]: pos < input_len + 1 = number of lattice nodes", None),
+ ("Trainer::build_lattice::{closure#1}", r"Add\(arg1\.#4,arg1\.#5\)", "pos + len of the current token", None),
+ ("Trainer::build_lattice::{closure#1}::{closure#1}", r"index\(arg1\.#0,from_u32", "label_id_map_unk has one entry per unk.def entry (Trainer::new); unk_index.word_id comes from compatible_unk_index", None),
+ ("Trainer::build_lattice::{closure#2}", r"unwrap\(try_from\(len|Add\(", "label ids: number of lexicon words + unknown entries + 1 fits u32 (checked when the provider was filled in Trainer::new)", None),
+]
+
 # i32 sums of costs on the tokenization path: not justified (see known_findings.txt)
 TOK_OPEN = [
  ("Lattice::search_min_node", r"Add\(next\(_\)\.#1\.min_cost,cost"),
@@ -177,6 +200,16 @@ def tok_entries():
     # every spelling of that row arithmetic inside the accessor.
     for sub, rx, reason, guard in TOK_RULES:
         e = {"scope": "TOK", "fn": sub, "rx": rx, "reason": reason}
+        if guard:
+            e["guard"] = guard
+        entries.append(e)
+    tkeys = r_panic.train_sites(ctx)
+    for k in tkeys:
+        fn = k.split("|")[0]
+        if not any(sub in fn and re.search(rx, k) for sub, rx, _, _ in TRAIN_RULES):
+            missing.append("TRAIN:" + k)
+    for sub, rx, reason, guard in TRAIN_RULES:
+        e = {"scope": "TRAIN", "fn": sub, "rx": rx, "reason": reason}
         if guard:
             e["guard"] = guard
         entries.append(e)
